@@ -16,7 +16,8 @@ pub const CHECK: Check = Check { id: "C20", level: "exploration", flavours: &["p
 
 const RULE: &str = "cases = (files x pieces x interleaving written through mla_config_* / mla_archive_* of libmla.so built from the tree, \
 write-callback schedule accepting 1..n bytes of each buffer, optional failure placement: the callback returns an error or \
-reports 0 bytes at its k-th call, null placements: a call made with a null handle / null buffer / a handle the interface \
+reports 0 bytes at its k-th call, or fails for good once a generated fraction of the expected archive size has been \
+accepted (incompressible content then, pieces up to 1.2 MB, so that the failure also lands inside append / close calls), null placements: a call made with a null handle / null buffer / a handle the interface \
 already cleared (double close, config consumed by mla_archive_new, closing and flushing again after a close that failed, \
 closing while a file is still open and then using the handle), then extraction of the collected archive through \
 mla_roarchive_extract with throttled read / seek callbacks, per-file writers with their own schedules, a file callback that \
@@ -110,13 +111,22 @@ struct Sink {
     fail_at: Option<u32>,
     zero_at: Option<u32>,
     flushes: u32,
+    /// every call fails once this many bytes have been accepted (a full disk)
+    fail_at_len: Option<usize>,
+    /// number of calls that reported an error
+    failed: u32,
 }
 
 extern "C" fn write_cb(buffer: *const u8, len: u32, ctx: *mut c_void, written: *mut u32) -> i32 {
     let s = unsafe { &mut *(ctx as *mut Sink) };
     s.calls += 1;
     if s.fail_at == Some(s.calls) {
+        s.failed += 1;
         return 5; // EIO
+    }
+    if s.fail_at_len.map_or(false, |t| s.buf.len() >= t) {
+        s.failed += 1;
+        return 28; // ENOSPC
     }
     if s.zero_at == Some(s.calls) {
         unsafe { *written = 0 };
@@ -213,7 +223,7 @@ extern "C" fn file_cb(ctx: *mut c_void, name: *const u8, len: usize, fw: *mut Fi
         Some((w, at)) if w == idx => Some(idx + at + 1),
         _ => None,
     };
-    let sink = Box::new(Sink { buf: Vec::new(), sched: s.wsched.clone(), calls: idx, partial: 0, fail_at, zero_at: None, flushes: 0 });
+    let sink = Box::new(Sink { buf: Vec::new(), sched: s.wsched.clone(), calls: idx, partial: 0, fail_at, zero_at: None, flushes: 0, fail_at_len: None, failed: 0 });
     let p = s.writers.entry(n).or_insert(sink);
     unsafe {
         (*fw).write_callback = Some(write_cb);
@@ -260,6 +270,9 @@ pub struct Case {
     pub wsched: Vec<u16>,
     pub decline: u16,
     pub seed: u16,
+    /// the write callback fails for good once this fraction of the expected archive size has been accepted
+    #[serde(default)]
+    pub fail_len: Option<u16>,
     /// failure placement on the extraction side: (kind 0 read / 1 seek / 2 writer, position)
     #[serde(default)]
     pub xfail: Option<(u8, u16)>,
@@ -283,8 +296,11 @@ pub fn oracle(c: &Case, st: &mut Stats) -> Result<(), String> {
     let null = std::ptr::null_mut::<c_void>();
     let has = |p: NullPlace| c.nulls.contains(&p);
     // a callback error must surface; a single 0-byte acceptance may either surface as an error or be retried
-    let failing = c.fail_at.is_some() || c.zero_at.is_some();
-    let hard_failure = c.fail_at.is_some();
+    let failing = c.fail_at.is_some() || c.zero_at.is_some() || c.fail_len.is_some();
+    let hard_failure = c.fail_at.is_some() || c.fail_len.is_some();
+    // "disk full" placement: a fraction of the bytes the archive is expected to take (content is incompressible then)
+    let est_total: usize = 160 + c.files.iter().map(|p| 60 + p.iter().map(|x| *x as usize + 20).sum::<usize>()).sum::<usize>();
+    let fail_at_len = c.fail_len.map(|f| util::idx(f, est_total + 1));
     let mut statuses: Vec<(String, u64)> = Vec::new();
     let expect_err = |name: &str, s: u64| -> Result<(), String> {
         if s == 0 {
@@ -320,7 +336,7 @@ pub fn oracle(c: &Case, st: &mut Stats) -> Result<(), String> {
         return Err("mla_config_set_compression_level(12) returned success".into());
     }
     // ---- archive
-    let mut sink = Box::new(Sink { buf: Vec::new(), sched: if c.sched.is_empty() { vec![1] } else { c.sched.clone() }, calls: 0, partial: 0, fail_at: c.fail_at.map(|x| x as u32 + 1), zero_at: c.zero_at.map(|x| x as u32 + 1), flushes: 0 });
+    let mut sink = Box::new(Sink { buf: Vec::new(), sched: if c.sched.is_empty() { vec![1] } else { c.sched.clone() }, calls: 0, partial: 0, fail_at: c.fail_at.map(|x| x as u32 + 1), zero_at: c.zero_at.map(|x| x as u32 + 1), flushes: 0, fail_at_len, failed: 0 });
     let sink_ptr = (&mut *sink) as *mut Sink as *mut c_void;
     let mut ar: *mut c_void = null;
     if has(NullPlace::ArchiveNewNullCallbacks) {
@@ -421,7 +437,7 @@ pub fn oracle(c: &Case, st: &mut Stats) -> Result<(), String> {
                 }
             }
             Some(len) => {
-                let d = data::gen(DataClass::Mixed, util::mix(c.seed as u64, "c20", ((f as u64) << 20) | nops as u64), len as usize);
+                let d = data::gen(if c.fail_len.is_some() { DataClass::Random } else { DataClass::Mixed }, util::mix(c.seed as u64, "c20", ((f as u64) << 20) | nops as u64), len as usize);
                 if has(NullPlace::AppendNullArchive) {
                     expect_err("mla_archive_file_append(NULL archive)", (lib.archive_file_append)(null, handles[f], d.as_ptr(), d.len() as u64))?;
                 }
@@ -509,14 +525,19 @@ pub fn oracle(c: &Case, st: &mut Stats) -> Result<(), String> {
     st.label(format!("files={}", c.files.len().min(6)));
     st.label(format!("nulls={}", c.nulls.len().min(4)));
     st.label(if failing { "failure-placement" } else { "no-failure" });
+    if failing {
+        if let Some((n, _)) = statuses.iter().find(|(_, s)| *s != 0) {
+            st.label(format!("first error returned by {}", n.split('(').next().unwrap_or("?")));
+        }
+    }
     if (interleaved && sink.partial > 0) || !c.nulls.is_empty() || failing || c.xfail.is_some() {
         st.nontrivial(util::hash64(format!("{c:?}").as_bytes()));
     }
     st.sample(|| json!({"files": c.files, "write_callback_accepts": c.sched, "failure_at_call": c.fail_at, "zero_bytes_at_call": c.zero_at, "null_placements": c.nulls.iter().map(|n| format!("{n:?}")).collect::<Vec<_>>(), "statuses": statuses.iter().take(8).map(|(n, s)| format!("{n}={s:#x}")).collect::<Vec<_>>(), "callback_calls": sink.calls, "partial_acceptances": sink.partial, "archive_len": sink.buf.len()}));
     if failing {
-        let reached = c.fail_at.map_or(false, |x| sink.calls > x as u32);
+        let reached = sink.failed > 0;
         if hard_failure && reached && !any_error {
-            return Err(format!("the write callback returned an error at its call {:?}, yet every API call returned success", c.fail_at));
+            return Err(format!("the write callback returned an error (placement: call {:?} / after {:?} bytes), yet every API call returned success", c.fail_at, fail_at_len));
         }
         if any_error || hard_failure {
             return Ok(());
@@ -671,7 +692,7 @@ fn case() -> impl Strategy<Value = Case> {
         Just(NullPlace::CloseWithOpenFile),
     ];
     (
-        prop::collection::vec(prop::collection::vec(prop_oneof![Just(0u32), Just(1), 2u32..300, 300u32..20_000, Just(131072), Just(131073)], 0..5), 0..5),
+        prop::collection::vec(prop::collection::vec(prop_oneof![4 => Just(0u32), 4 => Just(1), 8 => 2u32..300, 8 => 300u32..20_000, 3 => Just(131072), 3 => Just(131073), 2 => 131_074u32..1_200_000], 0..5), 0..5),
         prop::collection::vec(any::<u16>(), 0..24),
         0u8..=7,
         sched(),
@@ -679,9 +700,13 @@ fn case() -> impl Strategy<Value = Case> {
         prop::option::weighted(0.08, 0u16..60),
         prop::collection::vec(np, 0..3),
         prop_oneof![Just(0u8), 1u8..6],
-        (sched(), sched(), any::<u16>(), any::<u16>(), prop::option::weighted(0.3, (0u8..3, prop_oneof![0u16..40, any::<u16>()]))),
+        (sched(), sched(), any::<u16>(), any::<u16>(), prop::option::weighted(0.3, (0u8..3, prop_oneof![0u16..40, any::<u16>()])), prop::option::weighted(0.15, any::<u16>())),
     )
-        .prop_map(|(files, order, level, sched, fail_at, zero_at, nulls, flush_every, (rsched, wsched, decline, seed, xfail))| Case { files, order, level, sched, fail_at, zero_at, nulls, flush_every, rsched, wsched, decline, seed, xfail })
+        .prop_map(|(files, order, level, sched, fail_at, zero_at, nulls, flush_every, (rsched, wsched, decline, seed, xfail, fail_len))| {
+            // one kind of creation failure per case
+            let fail_len = if fail_at.is_some() || zero_at.is_some() { None } else { fail_len };
+            Case { files, order, level, sched, fail_at, zero_at, nulls, flush_every, rsched, wsched, decline, seed, xfail, fail_len }
+        })
 }
 
 pub fn worker(args: &[String]) -> i32 {
